@@ -687,6 +687,110 @@ def worker(shard):
     return acc
 
 
+# ---------------------------------------------------------------------------
+# part "retry": a call refused because of an ARGUMENT, then the same call again with a good argument
+# ---------------------------------------------------------------------------
+RETRY_SPECS = [("GCM",), ("GCM-mac8",), ("EAX",), ("OCB",), ("ChaCha20-Poly1305",), ("XChaCha20-Poly1305",),
+               ("ChaCha20-Poly1305[n8]",), ("CCM", 5, 17), ("CCM", None, 17), ("CCM", 0, 7)]
+BAD_ARGS = ("output+1", "output-1", "output-readonly", "output-bytes", "data-str", "data-none")
+
+
+def _bad_call(fn, data, how):
+    if how == "output+1":
+        return call(lambda: fn(data, output=bytearray(len(data) + 1)))
+    if how == "output-1":
+        return call(lambda: fn(data, output=bytearray(max(len(data) - 1, 0))))
+    if how == "output-readonly":
+        return call(lambda: fn(data, output=memoryview(bytes(len(data)))))
+    if how == "output-bytes":
+        return call(lambda: fn(data, output=bytes(len(data))))
+    if how == "data-str":
+        return call(lambda: fn(u"x" * len(data)))
+    return call(lambda: fn(None)) if data else ("exc", "skipped")
+
+
+def retry_histories(spec, acc):
+    """Every history  [update(aad)]? ; piece* ; tag  in one direction with 1 or 2 data pieces, and the same history with
+    a refused call (each kind of bad argument) inserted before each piece.  Oracle (differential, no expected values
+    written down): every piece and the final tag / verdict equal those of the history without the refused calls, which
+    in turn are checked against the one-shot computation by the main part."""
+    m = make_model(spec)
+    pieces_e = [P1, m.p2[:10]] if m.kind != "ocb" else [P1, m.p2]
+    for direction in ("encrypt", "decrypt"):
+        for with_aad in (False, True):
+            for npieces in (1, 2):
+                if m.fam == "CCM":
+                    tot = m.M
+                    sizes = [tot] if npieces == 1 else [7, tot - 7]
+                    if npieces == 2 and tot - 7 <= 0:
+                        continue
+                    if (m.A or 0) > 0 and not with_aad:
+                        continue
+                    if m.A == 0 and with_aad:
+                        continue
+                else:
+                    sizes = [len(x) for x in pieces_e[:npieces]]
+                aad = (b"aad#1" if with_aad else b"")
+                pt = [bytes((17 * i + j) & 255 for j in range(n)) for i, n in enumerate(sizes)]
+
+                def run(bad_at, how):
+                    """-> list of observations; bad_at: index of the piece before which the refused call is made"""
+                    o = m.mk()
+                    out = []
+                    if aad:
+                        out.append(call(o.update, aad)[:1])          # update() returns the object itself
+                    data = pt
+                    if direction == "decrypt":
+                        e = m.mk()
+                        if aad:
+                            e.update(aad)
+                        data = [e.encrypt(x) for x in pt]
+                        if m.kind == "ocb":
+                            data[-1] = data[-1] + e.encrypt()
+                        tag = e.digest()
+                    fn = o.encrypt if direction == "encrypt" else o.decrypt
+                    for i, x in enumerate(data):
+                        if bad_at == i:
+                            r = _bad_call(fn, x, how)
+                            if r[0] == "ok":
+                                out.append(("refused-call-accepted",))
+                        out.append(call(fn, x))
+                    if m.kind == "ocb":
+                        out.append(call(fn))
+                    out.append(call(o.digest) if direction == "encrypt" else call(o.verify, tag))
+                    return out
+                base = run(None, None)
+                acc.count("retry_base_histories")
+                if any(r[0] != "ok" for r in base):
+                    acc.error("retry part: the undisturbed history %s/%s/aad=%s/%d pieces of %s fails: %r"
+                              % (m.name, direction, with_aad, npieces, sizes, base))
+                    continue
+                for bad_at in range(len(pt)):
+                    for how in BAD_ARGS:
+                        if m.kind == "ocb" and (how.startswith("output") or how == "data-none"):
+                            continue                      # OCB's encrypt()/decrypt() take no output buffer; None = final call
+                        acc.count("retry_histories")
+                        acc.count("transitions", len(base) + 1)
+                        acc.count("traces")
+                        got = run(bad_at, how)
+                        acc.seen("retry_classes", (m.name, direction, how, got == base))
+                        if got != base:
+                            k = next(i for i in range(min(len(got), len(base))) if got[i] != base[i]) if len(got) == len(base) else -1
+                            acc.violation("C10/%s/retry-after-refused-%s/%s" % (m.name, direction, how.split("-")[0]),
+                                          "%s: %s history (aad %d bytes, pieces %s): a %s() call refused for its argument (%s) before piece %d "
+                                          "changes what follows: %s instead of %s"
+                                          % (m.name, direction, len(aad), sizes, direction, how, bad_at,
+                                             short(got[k] if k >= 0 else got), short(base[k] if k >= 0 else base)),
+                                          {"part": "retry", "model": list(spec)}, size=bad_at * 10 + npieces)
+
+
+def retry_worker(shard):
+    acc = Acc()
+    for spec in shard:
+        retry_histories(tuple(spec), acc)
+    return acc
+
+
 def aead_specs(quick):
     specs = [("GCM",), ("EAX",), ("OCB",), ("SIV", False), ("SIV", True), ("ChaCha20-Poly1305",),
              ("XChaCha20-Poly1305",)]
@@ -738,12 +842,20 @@ def run(ctx):
             shards.append([(["hash", n], d, [list(o1)], None)])
     # order shards big-first is unknown; interleave
     ctx.pmap(worker, shards)
+    ctx.pmap(retry_worker, [[list(sp)] for sp in RETRY_SPECS])
     a = ctx.acc
     cl = a.distinct.get("classes", set())
     obs = {c[3] for c in cl if not isinstance(c[3], tuple)}
     ctx.require("TypeError" in obs and "ValueError" in obs and "ok" in obs,
                 "expected TypeError, ValueError and ok observations, saw %s" % sorted(map(str, obs)))
     ctx.require(len(a.distinct.get("refstates", ())) > 200, "fewer than 200 distinct reference states")
+    ctx.require(a.n.get("retry_histories", 0) >= 500 and a.n.get("retry_base_histories", 0) >= 60,
+                "retry part: only %d histories with a refused call" % a.n.get("retry_histories", 0))
+    ctx.coverage_extra["retry_after_a_refused_call"] = {
+        "what": "every one-direction history [update] ; 1-2 pieces ; digest/verify of %d AEAD configurations, with one call "
+                "refused for its ARGUMENT (%s) inserted before each piece; all observations must equal those of the history "
+                "without the refused call" % (len(RETRY_SPECS), ", ".join(BAD_ARGS)),
+        "base_histories": a.n.get("retry_base_histories", 0), "histories_with_a_refused_call": a.n.get("retry_histories", 0)}
     ctx.coverage_extra.update({
         "states": a.n.get("states", 0),
         "transitions": a.n.get("transitions", 0),
@@ -763,6 +875,9 @@ def run(ctx):
 
 
 def replay(case, acc):
+    if case.get("part") == "retry":
+        retry_histories(tuple(case["model"]), acc)
+        return
     m = make_model(case["model"])
     hist = tuple(tuple(o) for o in case["history"])
     pair, steps = run_history(m, hist)
